@@ -298,15 +298,38 @@ class FnFlow:
                         s = sibs[i]
                         if in_switch and s.get("k") in ("case", "default"):
                             break
-                        if s.get("k") == "if" and not s.get("constexpr"):
-                            if always_exits(s.get("then")) and not s.get("else"):
-                                yield (s["cond"], False)
-                            elif s.get("else") and always_exits(s.get("else")) and not always_exits(s.get("then")):
-                                yield (s["cond"], True)
-                            elif s.get("else") and always_exits(s.get("then")) and not always_exits(s.get("else")):
-                                yield (s["cond"], False)
+                        for pf in post_facts(s):
+                            yield pf
                         i -= 1
             cur = a
+
+
+def post_facts(s):
+    """(cond, truth) pairs that hold whenever statement s completes normally
+    (`if (c) <exits> else S` gives c false plus S's own post-facts, recursively).
+    Assumes the tested expressions are not reassigned in between (guards in this code base test
+    parameters / fresh locals)."""
+    out = []
+    if not isinstance(s, dict):
+        return out
+    k = s.get("k")
+    if k == "if" and not s.get("constexpr"):
+        th, el = s.get("then"), s.get("else")
+        if always_exits(th):
+            out.append((s["cond"], False))
+            if el is not None:
+                out += post_facts(el)
+        elif el is not None and always_exits(el):
+            out.append((s["cond"], True))
+            out += post_facts(th)
+    elif k == "if" and s.get("constexpr") and "cv" in s:
+        arm = s.get("then") if s["cv"] else s.get("else")
+        if arm is not None:
+            out += post_facts(arm)
+    elif k == "block":
+        for x in s.get("s", []):
+            out += post_facts(x)
+    return out
 
 
 def split_cond(cond, truth):
@@ -366,7 +389,21 @@ def same_var(a, b):
         return a.get("name") == b.get("name") and same_base(a.get("base"), b.get("base"))
     if a.get("k") == "unop" and b.get("k") == "unop" and a.get("op") == b.get("op"):
         return same_var(a.get("e"), b.get("e"))
+    if a.get("k") == "subscript" and b.get("k") == "subscript":
+        return same_var(a.get("base"), b.get("base")) and _same_index(a.get("idx"), b.get("idx"))
+    if a.get("k") == "call" and b.get("k") == "call" and a.get("op") == "[]" and b.get("op") == "[]":
+        aa, ba = a.get("args", []), b.get("args", [])
+        return same_base(a.get("obj"), b.get("obj")) and len(aa) == len(ba) == 1 and _same_index(aa[0], ba[0])
     return False
+
+
+def _same_index(a, b):
+    a, b = strip_casts(a), strip_casts(b)
+    if not isinstance(a, dict) or not isinstance(b, dict):
+        return False
+    if a.get("k") == "lit" and b.get("k") == "lit":
+        return a.get("v") == b.get("v")
+    return same_var(a, b)
 
 
 def same_base(a, b):
